@@ -55,6 +55,7 @@ type FuncContract struct {
 	Props     []string
 	Requires  []Clause
 	Ensures   []Clause
+	Assumes   []Clause // postconditions handed to callers but not proved (listed as assumptions)
 	Olds      []OldDef
 	Loops     []*LoopContract
 	Inline    bool
@@ -80,12 +81,13 @@ type ContractFile struct {
 	Path    string
 	Source  string // "repo" or "mirror"
 	Imports []string
+	Options map[string]bool
 	Spec    string // raw Go declarations
 	Funcs   []*FuncContract
 	Lemmas  []*Lemma
 }
 
-var kwRe = regexp.MustCompile(`^(import|spec|end|func|props|requires|ensures|old|inline|noinline|trusted|strict|pure|modifies|loop|invariant|decreases|lemma|axiom|iface)\b`)
+var kwRe = regexp.MustCompile(`^(import|option|spec|end|func|props|requires|ensures|assumes|old|inline|noinline|trusted|strict|pure|modifies|loop|invariant|decreases|lemma|axiom|iface)\b`)
 var tagRe = regexp.MustCompile(`^\[([A-Za-z0-9_, ]+)\]\s*`)
 var labelRe = regexp.MustCompile(`^([a-zA-Z_][a-zA-Z0-9_]*):\s+`)
 
@@ -170,6 +172,13 @@ func ParseContractFile(path, source string) (*ContractFile, error) {
 		switch d.kw {
 		case "import":
 			cf.Imports = append(cf.Imports, strings.Trim(stripTrail(d.rest), `"`))
+		case "option":
+			if cf.Options == nil {
+				cf.Options = map[string]bool{}
+			}
+			for _, o := range strings.Fields(stripTrail(d.rest)) {
+				cf.Options[o] = true
+			}
 		case "func", "iface":
 			rest := stripTrail(d.rest)
 			fc := &FuncContract{Line: d.line, Iface: d.kw == "iface"}
@@ -209,6 +218,8 @@ func ParseContractFile(path, source string) (*ContractFile, error) {
 				cur.Requires = append(cur.Requires, parseClause(d.rest, d.line))
 			case "ensures":
 				cur.Ensures = append(cur.Ensures, parseClause(d.rest, d.line))
+			case "assumes":
+				cur.Assumes = append(cur.Assumes, parseClause(d.rest, d.line))
 			case "old":
 				rest := stripTrail(d.rest)
 				i := strings.Index(rest, "=")
